@@ -163,6 +163,7 @@ func LoadCheckpointList(fs storage.FileSystem, dataOwnership kv.DataOwnership, c
 	for _, doc := range rest {
 		// Merge WAL handles
 		compositeCheckpointDoc.WALs = append(compositeCheckpointDoc.WALs, doc.WALs...)
+		compositeCheckpointDoc.LastSeqNum = max(compositeCheckpointDoc.LastSeqNum, doc.LastSeqNum)
 
 		// Merge level list
 		for levelIndex, level := range doc.Levels {
